@@ -254,6 +254,7 @@ def r_gate(ck: Checker) -> None:
     what = "_check_runtime_types reports exactly the fields whose value does not conform (is_instance(getattr(node, f.name), resolved type) is false)"
     ok = False
     polarity_bad = False
+    skipped_unchecked = None
     if len(loops) == 1 and isinstance(loops[0].target, ast.Tuple) and len(loops[0].target.elts) == 2:
         nodep, mapp = h.node.args.args[0].arg, h.node.args.args[1].arg
         fv, ti = norm(loops[0].target.elts[0]), norm(loops[0].target.elts[1])
@@ -263,6 +264,10 @@ def r_gate(ck: Checker) -> None:
             good = True
             acc = None
             polarity_bad = False
+            for lf in leaves:
+                if not (set(lf.assign) & key_variants) and lf.assign and lf.outcome in ("continue", "fall") and not any(
+                        isinstance(c_, ast.Call) and dotted(c_.func) == "is_instance" for st_ in lf.stmts for c_ in ast.walk(st_)):
+                    skipped_unchecked = dict(lf.assign)  # a path through the loop body that never asks is_instance about the field
             for lf in leaves:
                 ks = set(lf.assign)
                 if len(ks) != 1 or not ks <= key_variants:
@@ -284,7 +289,9 @@ def r_gate(ck: Checker) -> None:
     if ok:
         ck.holds("R-GATE", h, loops[0], what)
     else:
-        if polarity_bad:
+        if skipped_unchecked is not None:
+            ck.violation("R-GATE", h, h.node, what, construct=f"_check_runtime_types: when {skipped_unchecked} a field is passed over without being checked")
+        elif polarity_bad:
             ck.violation("R-GATE", h, h.node, what, construct="_check_runtime_types: a field is reported when its value conforms (inverted test)")
         elif not any(isinstance(c_, ast.Call) and dotted(c_.func) == "is_instance" for c_ in ast.walk(h.node)):
             ck.violation("R-GATE", h, h.node, what, construct="_check_runtime_types: no field value is checked with is_instance")
